@@ -6,6 +6,7 @@
 package main
 
 import (
+	"bytes"
 	"encoding/binary"
 )
 
@@ -31,7 +32,7 @@ func ipChecksum(b []byte) uint16 {
 }
 
 // tcpSegment builds a 20 byte TCP header (no options) followed by the payload.
-func tcpSegment(src, dst [4]byte, sport, dport uint16, seq, ack uint32, flags int, payload []byte) []byte {
+func tcpSegment(src, dst []byte, sport, dport uint16, seq, ack uint32, flags int, payload []byte) []byte {
 	b := make([]byte, 20+len(payload))
 	binary.BigEndian.PutUint16(b[0:], sport)
 	binary.BigEndian.PutUint16(b[2:], dport)
@@ -55,11 +56,20 @@ func tcpSegment(src, dst [4]byte, sport, dport uint16, seq, ack uint32, flags in
 	binary.BigEndian.PutUint16(b[14:], 65535)
 	copy(b[20:], payload)
 	// checksum over pseudo header + segment
-	ph := make([]byte, 12, 12+len(b))
-	copy(ph[0:], src[:])
-	copy(ph[4:], dst[:])
-	ph[9] = 6
-	binary.BigEndian.PutUint16(ph[10:], uint16(len(b)))
+	var ph []byte
+	if len(src) == 16 {
+		ph = make([]byte, 40, 40+len(b))
+		copy(ph[0:], src)
+		copy(ph[16:], dst)
+		binary.BigEndian.PutUint32(ph[32:], uint32(len(b)))
+		ph[39] = 6
+	} else {
+		ph = make([]byte, 12, 12+len(b))
+		copy(ph[0:], src)
+		copy(ph[4:], dst)
+		ph[9] = 6
+		binary.BigEndian.PutUint16(ph[10:], uint16(len(b)))
+	}
 	ph = append(ph, b...)
 	binary.BigEndian.PutUint16(b[16:], ipChecksum(ph))
 	return b
@@ -67,7 +77,7 @@ func tcpSegment(src, dst [4]byte, sport, dport uint16, seq, ack uint32, flags in
 
 // ipv4Packet builds a 20 byte IPv4 header (no options) followed by the payload.
 // foff is the fragment offset in bytes (multiple of 8).
-func ipv4Packet(src, dst [4]byte, id uint16, foff int, mf bool, payload []byte) []byte {
+func ipv4Packet(src, dst []byte, id uint16, foff int, mf bool, payload []byte) []byte {
 	b := make([]byte, 20+len(payload))
 	b[0] = 0x45
 	binary.BigEndian.PutUint16(b[2:], uint16(len(b)))
@@ -79,26 +89,44 @@ func ipv4Packet(src, dst [4]byte, id uint16, foff int, mf bool, payload []byte) 
 	binary.BigEndian.PutUint16(b[6:], fo)
 	b[8] = 64
 	b[9] = 6
-	copy(b[12:], src[:])
-	copy(b[16:], dst[:])
+	copy(b[12:], src)
+	copy(b[16:], dst)
 	binary.BigEndian.PutUint16(b[10:], ipChecksum(b[:20]))
 	copy(b[20:], payload)
 	return b
 }
 
+// ipv6Packet builds the 40 byte IPv6 header (no extension headers) followed by the payload.
+func ipv6Packet(src, dst []byte, payload []byte) []byte {
+	b := make([]byte, 40+len(payload))
+	b[0] = 0x60
+	binary.BigEndian.PutUint16(b[4:], uint16(len(payload)))
+	b[6] = 6
+	b[7] = 64
+	copy(b[8:], src)
+	copy(b[24:], dst)
+	copy(b[40:], payload)
+	return b
+}
+
 // link types as numbers of the tcpdump registry (independent of fq's constants)
-var linkNum = map[string]uint32{"null": 0, "eth": 1, "raw": 101, "sll": 113, "ipv4": 228, "sll2": 276}
+var linkNum = map[string]uint32{"null": 0, "eth": 1, "raw": 101, "sll": 113, "ipv4": 228, "ipv6": 229, "sll2": 276}
 
 // linkFrame wraps an IPv4 packet. be selects the byte order of the host-endian BSD loopback header.
-func linkFrame(link string, be bool, ip []byte, aToB bool) []byte {
+func linkFrame(link string, be bool, ip []byte, aToB bool, v6 bool) []byte {
+	et := []byte{0x08, 0x00}
+	if v6 {
+		et = []byte{0x86, 0xdd}
+	}
 	switch link {
 	case "eth":
 		h := []byte{0x02, 0, 0, 0, 0, 0x0b, 0x02, 0, 0, 0, 0, 0x0a, 0x08, 0x00}
 		if !aToB {
 			h[5], h[11] = 0x0a, 0x0b
 		}
+		copy(h[12:], et)
 		return append(h, ip...)
-	case "raw", "ipv4":
+	case "raw", "ipv4", "ipv6":
 		return append([]byte(nil), ip...)
 	case "sll":
 		// packet type, ARPHRD_ETHER, address length 6, address (8), protocol
@@ -107,6 +135,7 @@ func linkFrame(link string, be bool, ip []byte, aToB bool) []byte {
 			h[1] = 4 // sent by us
 			h[11] = 0x0b
 		}
+		copy(h[14:], et)
 		return append(h, ip...)
 	case "sll2":
 		// protocol, reserved, interface index, ARPHRD_ETHER, packet type, address length, address (8)
@@ -115,11 +144,16 @@ func linkFrame(link string, be bool, ip []byte, aToB bool) []byte {
 			h[10] = 4
 			h[17] = 0x0b
 		}
+		copy(h[0:], et)
 		return append(h, ip...)
 	case "null":
-		h := []byte{2, 0, 0, 0} // AF_INET in the byte order of the capturing host
+		af := byte(2) // AF_INET / AF_INET6 (BSD 24, FreeBSD 28, Darwin 30, Linux 10) in the byte order of the capturing host
+		if v6 {
+			af = []byte{24, 28, 30, 10}[int(ip[39])%4]
+		}
+		h := []byte{af, 0, 0, 0}
 		if be {
-			h = []byte{0, 0, 0, 2}
+			h = []byte{0, 0, 0, af}
 		}
 		return append(h, ip...)
 	}
@@ -127,14 +161,18 @@ func linkFrame(link string, be bool, ip []byte, aToB bool) []byte {
 }
 
 type capFmt struct {
-	ng bool
-	be bool
-	ns bool
+	ng  bool
+	be  bool
+	ns  bool
+	len bool // pcapng: section_length given instead of -1
+	big bool // pcapng: the SHB carries a 400 byte comment option (longer than any packet block of a small case)
 }
 
 var capFmts = map[string]capFmt{
 	"pcap_le": {}, "pcap_be": {be: true}, "pcap_le_ns": {ns: true}, "pcap_be_ns": {be: true, ns: true},
 	"pcapng_le": {ng: true}, "pcapng_be": {ng: true, be: true},
+	"pcapng_le_len": {ng: true, len: true}, "pcapng_be_len": {ng: true, be: true, len: true},
+	"pcapng_le_len_big": {ng: true, len: true, big: true}, "pcapng_be_len_big": {ng: true, be: true, len: true, big: true},
 }
 
 func (f capFmt) order() binary.AppendByteOrder {
@@ -194,19 +232,14 @@ func ngOption(bo binary.AppendByteOrder, code uint16, val []byte) []byte {
 	return pad4(out)
 }
 
-// writePcapng writes one section: SHB (with a userappl option), one IDB per entry of links,
+// ngSection writes one pcapng section: SHB (with a userappl option), one IDB per entry of links,
 // one EPB per frame (ifaces[i] = interface of frame i; every second EPB carries a comment option).
-func writePcapng(f capFmt, links []uint32, frames [][]byte, ifaces []int) []byte {
+// exactLen: section_length = number of bytes following the SHB (the specification's meaning) instead of -1.
+// It also returns the length of the SHB and of the last block of the section (0: SHB only).
+func ngSection(f capFmt, links []uint32, frames [][]byte, ifaces []int) (out []byte, shbLen int, lastLen int) {
+	exactLen := f.len
 	bo := f.order()
-	var out []byte
-	var shb []byte
-	shb = bo.AppendUint32(shb, 0x1a2b3c4d)
-	shb = bo.AppendUint16(shb, 1)
-	shb = bo.AppendUint16(shb, 0)
-	shb = bo.AppendUint64(shb, 0xffffffffffffffff)
-	shb = append(shb, ngOption(bo, 4, []byte("verif-c19"))...)
-	shb = append(shb, ngOption(bo, 0, nil)...)
-	out = append(out, ngBlock(bo, 0x0a0d0d0a, shb)...)
+	var body []byte
 	for _, l := range links {
 		var idb []byte
 		idb = bo.AppendUint16(idb, uint16(l))
@@ -214,7 +247,9 @@ func writePcapng(f capFmt, links []uint32, frames [][]byte, ifaces []int) []byte
 		idb = bo.AppendUint32(idb, 262144)
 		idb = append(idb, ngOption(bo, 2, []byte("if0"))...)
 		idb = append(idb, ngOption(bo, 0, nil)...)
-		out = append(out, ngBlock(bo, 1, idb)...)
+		blk := ngBlock(bo, 1, idb)
+		lastLen = len(blk)
+		body = append(body, blk...)
 	}
 	for i, fr := range frames {
 		var epb []byte
@@ -228,7 +263,24 @@ func writePcapng(f capFmt, links []uint32, frames [][]byte, ifaces []int) []byte
 			epb = append(epb, ngOption(bo, 1, []byte("c"))...)
 			epb = append(epb, ngOption(bo, 0, nil)...)
 		}
-		out = append(out, ngBlock(bo, 6, epb)...)
+		blk := ngBlock(bo, 6, epb)
+		lastLen = len(blk)
+		body = append(body, blk...)
 	}
-	return out
+	var shb []byte
+	shb = bo.AppendUint32(shb, 0x1a2b3c4d)
+	shb = bo.AppendUint16(shb, 1)
+	shb = bo.AppendUint16(shb, 0)
+	if exactLen {
+		shb = bo.AppendUint64(shb, uint64(len(body)))
+	} else {
+		shb = bo.AppendUint64(shb, 0xffffffffffffffff)
+	}
+	shb = append(shb, ngOption(bo, 4, []byte("verif-c19"))...)
+	if f.big {
+		shb = append(shb, ngOption(bo, 1, bytes.Repeat([]byte("x"), 400))...)
+	}
+	shb = append(shb, ngOption(bo, 0, nil)...)
+	hdr := ngBlock(bo, 0x0a0d0d0a, shb)
+	return append(hdr, body...), len(hdr), lastLen
 }
